@@ -49,6 +49,8 @@ func hostileNames(other string) []string {
 		"../tsa/troots", "../" + other + "/sroots", "acme/../../tsa/troots", "./../tsa/troots", "../tsa/troots/", "../tsa/troots/.",
 		"../../../elsewhere/roots", "..\\tsa\\troots", "..//tsa//troots", "../TSA/troots", "acme/../../" + other + "/sroots", "/../tsa/troots",
 		"../ca/../tsa/troots", "%2e%2e/tsa/troots", "..%2ftsa%2ftroots", "acme/", "acme/.", "nested/roots",
+		// names made of file-name characters only: the type's directory itself and its parent
+		".", "..", "...",
 	}
 }
 
